@@ -2,7 +2,8 @@ import PMV.Props.C10
 #print axioms PMV.SetItem.npAssign_frame
 #print axioms PMV.SetItem.npAssign_update
 #print axioms PMV.SetItem.npAssign_readback
-#print axioms PMV.SetItem.setitem_vals
+#print axioms PMV.SetItem.expandMask_bit
+#print axioms PMV.SetItem.setitem_state
 #print axioms PMV.SetItem.setitem_frame
 #print axioms PMV.SetItem.setitem_update
 #print axioms PMV.SetItem.masked_entry_writes_nothing
